@@ -168,6 +168,25 @@ Theorem C01_batchbald_two_tiebreaks_duplicate_refuted :
 Proof. exact bald_two_tiebreaks_duplicate_refuted. Qed.
 Print Assumptions C01_batchbald_two_tiebreaks_duplicate_refuted.
 
+(* RegressionTreeBasedAL (random / diversity), as written: whatever the tree, the per-leaf quotas and the values are, the indices
+   returned are pairwise distinct candidates and every row has the documented NaN marks with an optimal pick - for as many steps as
+   the schedule of the numeric layer has.  What the code as written does not guarantee is the NUMBER of steps (a leaf with a
+   positive quota but without candidates is skipped) and a finite utility at the pick (quota > candidates of the leaf): recorded
+   findings, witnessed below *)
+Theorem C01_regression_tree_loop_valid :
+  forall (m : nat) (leaf_of : nat -> nat) (value : nat -> Z) (neg : Z) (sched : list nat) (noises : list (list Z)),
+  length sched <= m -> noises_ok m (length sched) noises ->
+  psteps_ok SelMax (seq 0 m) [] m (rt_loop m leaf_of value neg sched noises) = true /\
+  length (rt_loop m leaf_of value neg sched noises) = length sched.
+Proof. exact regtree_accepted. Qed.
+Print Assumptions C01_regression_tree_loop_valid.
+
+Theorem C01_regression_tree_neg_inf_pick_refuted :
+  let t := rt_loop 2 (fun j => j) (fun _ => 1%Z) (-5)%Z [0; 0] [[1; 1]; [1; 1]]%Z in
+  map fst t = [0; 1] /\ nth 1 (snd (nth 1 t (O, []))) None = Some (-5)%Z.
+Proof. exact regtree_neg_inf_pick_refuted. Qed.
+Print Assumptions C01_regression_tree_neg_inf_pick_refuted.
+
 (* sampling loops (Badge, Falcun): earlier picks get weight 0, a fallback to weight 1 for everything
    that is not an earlier pick when nothing is left; for EVERY raw weight oracle and every sequence of
    draws that respects numpy's contract for choice (positive probability) the batch is duplicate-free
